@@ -19,6 +19,12 @@ mod c20;
 
 use vcore::{parse_args, Run};
 
+/// 62-bit values of every varint width (shared generator).
+pub fn c17_ids() -> impl proptest::strategy::Strategy<Value = u64> {
+    use proptest::prelude::*;
+    prop_oneof![0u64..64, 64u64..16384, 16384u64..(1 << 30), (1u64 << 30)..(1u64 << 62)]
+}
+
 fn main() {
     let args = parse_args();
     vcore::install_panic_hook();
